@@ -526,7 +526,24 @@ impl Minimizer<'_> {
                 }
             }
         }
+
+        // The merged state reserves the union of both states' reserved words. A word that
+        // only one of the states reserves, and that the other does not accept as a token,
+        // would stop being lexed as the word token in the other state's context.
+        if Self::reserves_words_of(state1, state2) || Self::reserves_words_of(state2, state1) {
+            debug!(
+                "split states {} {} - differing reserved words",
+                state1.id, state2.id,
+            );
+            return true;
+        }
         false
+    }
+
+    fn reserves_words_of(state: &ParseState, other: &ParseState) -> bool {
+        other.reserved_words.iter().any(|word| {
+            !state.reserved_words.contains(word) && !state.terminal_entries.contains_key(&word)
+        })
     }
 
     fn state_successors_differ(
